@@ -114,3 +114,27 @@ def emcy_reset_then(consumer, d1, d2):
     consumer.reset()
     consumer.on_emcy(0x81, d1, 1.0)
     consumer.on_emcy(0x81, d2, 2.0)
+
+
+def download_in_chunks(stream, data):
+    """the file-like layer above a raw stream: offers the not yet accepted data in pieces of arbitrary size until all
+    of it was taken, then closes (the assumed contract of io.BufferedWriter / a direct caller of write())"""
+    from env import rt
+    pos = 0
+    total = len(data)
+    while pos < total:
+        k = rt.choose_int("chunk", 1, 1 << 32)
+        n = stream.write(data[pos:pos + k])
+        pos = pos + n
+    stream.close()
+
+
+def upload_all(stream):
+    """RawIOBase.readall(): concatenates successive read() results until an empty one"""
+    out = bytearray()
+    while True:
+        d = stream.read(7)
+        if not d:
+            break
+        out.extend(d)
+    return out
